@@ -10,7 +10,7 @@ def commentsAt (p : Str) (gs : List Group) : List (List Comment) :=
   | some g => g.comments
   | none => []
 
-def membersAt (p : Str) (gs : List Group) : List Str :=
+def membersAt (p : Str) (gs : List Group) : List Member :=
   match gs.find? (fun g => g.path = p) with
   | some g => g.members
   | none => []
@@ -172,23 +172,31 @@ theorem sortBy_perm {α : Type} (le : α → α → Bool) (l : List α) : (sortB
     simp only [sortBy, List.foldr_cons]
     exact (insertBy_perm le x _).trans (List.Perm.cons x ih)
 
-def flatComments (gs : List Group) : List Comment := gs.flatMap (fun g => g.comments.flatten)
+/-- Every comment printed in the import section: line comments of the merged lines, then the
+comments of the members. -/
+def groupComments (g : Group) : List Comment := g.comments.flatten ++ g.members.flatMap (·.comments)
+def importComments (i : Import) : List Comment := i.comments ++ i.members.flatMap (·.comments)
+def flatComments (gs : List Group) : List Comment := gs.flatMap groupComments
 
 theorem flatComments_insertImp (gs : List Group) (imp : Import) :
-    (flatComments (insertImp gs imp)).Perm (flatComments gs ++ imp.comments) := by
+    (flatComments (insertImp gs imp)).Perm (flatComments gs ++ importComments imp) := by
   induction gs with
-  | nil => simp [insertImp, flatComments]
+  | nil => simp [insertImp, flatComments, groupComments, importComments]
   | cons g rest ih =>
     simp only [insertImp]
     split
-    · simp only [flatComments, List.flatMap_cons, List.flatten_append, List.flatten_cons,
-        List.flatten_nil, List.append_nil, List.append_assoc]
-      exact List.Perm.append_left _ List.perm_append_comm
+    · simp only [flatComments, groupComments, importComments, List.flatMap_cons, List.flatten_append,
+        List.flatten_cons, List.flatten_nil, List.append_nil, List.flatMap_append, List.append_assoc]
+      refine List.Perm.append_left _ ?_
+      rw [List.perm_iff_count]
+      intro a
+      simp only [List.count_append]
+      omega
     · simp only [flatComments, List.flatMap_cons, List.append_assoc] at ih ⊢
       exact List.Perm.append_left _ ih
 
 theorem flatComments_foldl (imps : List Import) (gs : List Group) :
-    (flatComments (imps.foldl insertImp gs)).Perm (flatComments gs ++ imps.flatMap (·.comments)) := by
+    (flatComments (imps.foldl insertImp gs)).Perm (flatComments gs ++ imps.flatMap importComments) := by
   induction imps generalizing gs with
   | nil => simp
   | cons imp rest ih =>
@@ -196,5 +204,17 @@ theorem flatComments_foldl (imps : List Import) (gs : List Group) :
     refine (ih _).trans ?_
     rw [← List.append_assoc]
     exact List.Perm.append_right _ (flatComments_insertImp gs imp)
+
+theorem flatMap_perm_pointwise {α β : Type} (f g : α → List β) (l : List α)
+    (h : ∀ x, (f x).Perm (g x)) : (l.flatMap f).Perm (l.flatMap g) := by
+  induction l with
+  | nil => exact .refl _
+  | cons x xs ih => simp only [List.flatMap_cons]; exact (h x).append ih
+
+theorem groupComments_sortMembers (g : Group) :
+    (groupComments { g with members := sortBy (fun a b => strLe a.name b.name) g.members }).Perm
+      (groupComments g) := by
+  unfold groupComments
+  exact List.Perm.append_left _ ((sortBy_perm _ g.members).flatMap_right _)
 
 end SamVerif.Imports
